@@ -60,6 +60,14 @@ func wktCorpus(thorough bool) []*ref.G {
 		for _, n := range []int{0, 2, 3} {
 			simple = append(simple, ref.NewLine(ref.LineString, l, n, ref.Counter()))
 		}
+		// lines that return to their first position: in X and Y only, and in every ordinate
+		for _, n := range []int{4, 5} {
+			loose := ref.NewLine(ref.LineString, l, n, ref.Counter())
+			loose.C1[n-1][0], loose.C1[n-1][1] = loose.C1[0][0], loose.C1[0][1]
+			full := ref.NewLine(ref.LineString, l, n, ref.Counter())
+			copy(full.C1[n-1], full.C1[0])
+			simple = append(simple, loose, full)
+		}
 		for _, rs := range ref.Seqs([]int{4, 5}, 3) {
 			simple = append(simple, &ref.G{Kind: ref.Polygon, Layout: l, C2: wktPolygon(l, rs, ref.Counter())})
 		}
@@ -205,6 +213,18 @@ func c05Exec(c *engine.Ctx, cs c05Case) {
 		if !ref.Equal(rg, g, ref.EqualOpt{}) {
 			fail("ref-unequal", fmt.Sprintf("independent reader reads %q as %s", text, rg))
 			return
+		}
+		// WKT has no LINEARRING: the encoder writes a LinearRing as the LINESTRING of the same
+		// positions, so the same coordinates handed over as a ring must give the same text
+		if g.Kind == ref.LineString {
+			ring := &ref.G{Kind: ref.LinearRing, Layout: g.Layout, C1: g.C1}
+			var rtext string
+			var rerr error
+			if p, _ := engine.Guard(func() { rtext, rerr = wkt.Marshal(ring.MustBuild()) }); p != nil || rerr != nil || rtext != text {
+				fail("linearring-text", fmt.Sprintf("the same positions as a LinearRing encode to %q (err %v, panic %v), as a LineString to %q", rtext, rerr, p, text))
+				return
+			}
+			c.Count("linearring_texts", 1)
 		}
 	} else {
 		text = ref.WriteWKT(g, *cs.Style)
